@@ -5,8 +5,8 @@ cd /verif
 git -C /repo diff --quiet || { echo "/repo has uncommitted changes"; exit 2; }
 git -C /repo apply /verif/seeded/$ID/patch.diff || { echo "patch does not apply"; exit 2; }
 trap 'git -C /repo checkout -- .' EXIT
+export VERIF_EVIDENCE_DIR=/var/tmp/ev_seed VERIF_REPLAYS_NEW=/var/tmp/replays_seed_$ID
 for c in "$@"; do
-  rm -rf replays/new
   python3-vt verif.py check $c --tier ${TIER:-quick} > /var/tmp/seed_${ID}_$c.log 2>&1; rc=$?
   nv=$(grep -c "^VIOLATION" /var/tmp/seed_${ID}_$c.log)
   echo "seed=$ID check=$c rc=$rc violations=$nv :: $(grep -A1 '^VIOLATION' /var/tmp/seed_${ID}_$c.log | sed -n 2p | cut -c1-220)"
